@@ -181,3 +181,7 @@ func ChoiceAt(i int, opts ...string) string { return opts[i] }
 // LiftCall asks the engine to evaluate a pure one-argument function once per
 // possible value of a finite-valued argument instead of forking inside it.
 func LiftCall(fn string) {}
+
+// Commit tells the engine that everything built so far is shared, read-mostly
+// data (cheap to fork over). No-op natively.
+func Commit() {}
